@@ -200,6 +200,15 @@ func (c *twistPoint) Double(a *twistPoint, pool *bnPool) {
 }
 
 func (c *twistPoint) Mul(a *twistPoint, scalar *big.Int, pool *bnPool) *twistPoint {
+	if scalar.Sign() < 0 {
+		// a·(-k) = -(a·k)
+		t := newTwistPoint(pool)
+		t.Mul(a, new(big.Int).Neg(scalar), pool)
+		c.Negative(t, pool)
+		t.Put(pool)
+		return c
+	}
+
 	sum := newTwistPoint(pool)
 	sum.SetInfinity()
 	t := newTwistPoint(pool)
